@@ -217,6 +217,11 @@ pub enum Runner {
     ControlAbortAfter(u8),
     /// the library's `force_*` form (single operation)
     Force,
+    /// `Transaction::with_control(|_| Retry, ..)` / `atomically`: for infallible operations
+    Atomically,
+    /// the benches' `while !with_control_and_err(always Retry, ..).is_validated() {}` loop,
+    /// bounded to n tries (the original spins forever on a cancelled transaction)
+    RetryLoop(u8),
 }
 
 #[derive(Clone, Debug, PartialEq, Eq, Hash, Serialize, Deserialize)]
@@ -312,6 +317,31 @@ pub fn run_tx(m: &AnyMap, tx: &Tx) -> TxOut {
                 TransactionResult::Cancelled((i, e)) => TxValue::Err(i, e),
                 TransactionResult::Abandoned => TxValue::Abandoned,
             }
+        }
+        Runner::Atomically => {
+            let v = Transaction::with_control(
+                |_| TransactionControl::Retry,
+                |t| match body(m, t, tx) {
+                    Ok(v) => Ok(v),
+                    Err(TransactionError::Stm(e)) => Err(e),
+                    Err(TransactionError::Abort((i, e))) => panic!("operation {i} aborted inside `atomically`: {e}"),
+                },
+            );
+            TxValue::Ok(v.expect("always-retry control cannot abandon"))
+        }
+        Runner::RetryLoop(n) => {
+            let mut last = TxValue::Abandoned;
+            for _ in 0..n.max(1) {
+                match Transaction::with_control_and_err(|_| TransactionControl::Retry, |t| body(m, t, tx)) {
+                    TransactionResult::Validated(v) => {
+                        last = TxValue::Ok(v);
+                        break;
+                    }
+                    TransactionResult::Cancelled((i, e)) => last = TxValue::Err(i, e),
+                    TransactionResult::Abandoned => last = TxValue::Abandoned,
+                }
+            }
+            last
         }
         Runner::Force => {
             assert_eq!(tx.ops.len(), 1, "force form runs exactly one operation");
